@@ -569,8 +569,9 @@ def parse_term(text: str) -> Term:
 # ----------------------------------------------------------------------------
 
 FN_RE = re.compile(r'^fn (?P<name>.+?)\((?P<args>(?:_1: .*)?)\) -> (?P<ret>.*) \{$')
-CONST_RE = re.compile(r'^(?:const|static|static mut) (?P<name>.+?): (?P<ty>.*) = \{$')
-CONST_INLINE_RE = re.compile(r'^(?:const|static) (?P<name>.+?): (?P<ty>.*) = const (?P<val>.*);$')
+NAME_PAT = r'(?P<name>(?:<impl at [^>]*>|::|[^:])+?)'
+CONST_RE = re.compile(r'^(?:const|static|static mut) ' + NAME_PAT + r': (?P<ty>.*) = \{$')
+CONST_INLINE_RE = re.compile(r'^(?:const|static) ' + NAME_PAT + r': (?P<ty>.*) = const (?P<val>.*);$')
 LOCAL_RE = re.compile(r'^\s+let (?:mut )?_(\d+): (.*);$')
 BB_RE = re.compile(r'^\s+(bb\d+)( \(cleanup\))?: \{$')
 
@@ -634,6 +635,13 @@ def parse_mir(text: str, crate: str) -> Dict[str, Func]:
             # parse statements now
             for b in f.blocks.values():
                 b.stmts = [parse_stmt(s) for s in b.stmts]
+            if name in funcs:
+                # several items printed under one name (impls generated by a macro share the span)
+                k = 2
+                while '%s#%d' % (name, k) in funcs:
+                    k += 1
+                name = '%s#%d' % (name, k)
+                f.name = name
             funcs[name] = f
             i += 1
             continue
